@@ -17,6 +17,7 @@ fmt keys (all optional; absent = canonical):
   blank: str            content of the "empty" lines emitted for blanks / orphan fences (default "": truly empty)
   tight_hash: bool      comments written "#text" instead of "# text"
   sat_x: bool           the default cast mode spelled out ("saturated uint8")
+  cgap: str             blanks / tabs between a cast mode keyword and the type name (default " ")
   numx: int             array capacities and extents spelled as equivalent literals / constant expressions (0x.., n-1 + 1, 2 ** k, 8 * m)
 """
 from __future__ import annotations
@@ -43,6 +44,15 @@ def spell_number(n: int, numx: int | None) -> str:
     if sel == 6 and n % 8 == 0 and n > 0:
         return "8 * %d" % (n // 8)
     return "%d" % n
+
+
+def _cgap(tt: str, fmt: dict) -> str:
+    """The blanks / tabs between a cast mode keyword and the type name (fmt key cgap; default one blank)."""
+    cg = fmt.get("cgap")
+    if not cg:
+        return tt
+    import re
+    return re.sub(r"\b(truncated|saturated) ", lambda m: m.group(1) + cg, tt)
 
 
 def type_text(t: list, d: dict, gap: str = "", sat: bool = False, numx: int | None = None) -> str:
@@ -136,13 +146,13 @@ def render(d: dict, fmt: dict | None = None) -> tuple[str, dict[str, int]]:
             k = it[0]
             doc = None
             if k == "f":
-                text = "%s%s%s" % (type_text(it[1], d, fmt.get("agap", ""), sat, numx), gap, it[2])
+                text = "%s%s%s" % (_cgap(type_text(it[1], d, fmt.get("agap", ""), sat, numx), fmt), gap, it[2])
                 doc = it[3] if len(it) > 3 else None
             elif k == "p":
                 text = "void%d" % it[1]
                 doc = it[2] if len(it) > 2 else None
             elif k == "c":
-                text = "%s%s%s%s=%s%s" % (type_text(it[1], d, "", sat, None), gap, it[2], gap, gap, it[3])
+                text = "%s%s%s%s=%s%s" % (_cgap(type_text(it[1], d, "", sat, None), fmt), gap, it[2], gap, gap, it[3])
                 doc = it[5] if len(it) > 5 else None
             elif k == "raw":
                 text = it[1]
